@@ -9,6 +9,8 @@
 //	               the client's proto.ColDate;
 //	--mode protos  the label lists built by the Datadog / Elasticsearch / OTLP-logs / InfluxDB-metric decoders,
 //	               in several wire orders and under FingerPrintType = Bernstein;
+//	--mode djb     pairs of label sets under both fingerprint types (--mode djbsearch: birthday search for two label
+//	               sets whose 32-bit Bernstein fingerprints collide);
 //	--mode keys    the key serializer of the production announcement cache on pairs of 64-bit keys.
 //
 // Every random choice derives from --seed. Output: JSON lines.
@@ -25,7 +27,7 @@ import (
 )
 
 func main() {
-	mode := flag.String("mode", "labels", "labels | hist | dates | keys | protos")
+	mode := flag.String("mode", "labels", "labels | hist | dates | keys | protos | djb | djbsearch")
 	f := hx.ParseFlags()
 	config.Cloki = clconfig.New(clconfig.CLOKI_WRITER, nil, "", "")
 	out := hx.OpenOut(f.Out)
@@ -41,6 +43,10 @@ func main() {
 		runKeys(f, out)
 	case "protos":
 		runProtos(f, out)
+	case "djb":
+		runDjb(f, out, false)
+	case "djbsearch":
+		runDjb(f, out, true)
 	default:
 		fmt.Fprintln(os.Stderr, "unknown mode", *mode)
 		os.Exit(2)
